@@ -120,6 +120,11 @@ pub fn scenarios() -> Vec<Scenario> {
             v.push(mk("glob-no-match", vec![], s(&["-g", "nomatch*", "dst"])));
             v.push(mk("glob-no-match-2", vec![], s(&["-g", "zz?", "qq*", "dst"])));
             v.push(mk("target-directory-missing-source", vec![], s(&["--target-directory", "dst", "v1", "missing"])));
+            // several sources need a directory to go into, however the destination is named
+            v.push(mk("target-directory-several-sources", vec![], s(&["--target-directory", "dst", "v1", "v2"])));
+            v.push(mk("target-directory-several-sources-r", vec![], s(&["-r", "--target-directory", "dst", "sdir", "v1"])));
+            v.push(mk("target-directory-several-sources-last", vec![], s(&["v1", "v2", "--target-directory", "dst"])));
+            v.push(mk("target-directory-glob-several", vec![], s(&["-g", "--target-directory", "dst", "v?"])));
             v.push(mk("target-directory-no-source", vec![], s(&["--target-directory", "dst"])));
         }
         // unknown driver: the option value itself is the offence
